@@ -5,6 +5,8 @@ LEVEL = "proof"
 CONTRACT_MODULES = ["contracts.refs", "contracts.refs_deps"]
 FUNCTIONS = [c.qualname for c in _d.CONTRACTS if not c.trusted]
 ENGINE = RefsEngine
+# the manager's report of an expression's dependencies: ExprTask.__init__ stores expr._get_dependencies() unchanged (proved under C01's configuration)
+BORROW = [("C01", ["ExprTask.__init__"])]
 RAC = "rac/c05.py"
 RAC_BUDGET = {"quick": 60, "thorough": 120}
 RAC_MIN = {"quick": 955, "thorough": 955}      # fewer run-time evaluations than this = the harness skipped its work: checker broken, not "held"
